@@ -254,6 +254,14 @@ type vfHistStats struct {
 // vfRunHistory runs ops against the real filter, the operational model and
 // (while applicable) the declarative semantics.  Returns "" or a violation.
 func vfRunHistory(ttl int64, ops []vfOp, st *vfHistStats, unit time.Duration) string {
+	return vfRunHistoryAt(vfBase, ttl, ops, st, unit)
+}
+
+// vfBases: where tick 0 lies.  The zero time.Time is an ordinary instant to a
+// filter that is handed its timestamps by the caller.
+var vfBases = []time.Time{vfBase, {}, time.Unix(0, 0)}
+
+func vfRunHistoryAt(base time.Time, ttl int64, ops []vfOp, st *vfHistStats, unit time.Duration) string {
 	if unit == 0 {
 		unit = time.Second
 	}
@@ -284,7 +292,7 @@ func vfRunHistory(ttl int64, ops []vfOp, st *vfHistStats, unit time.Duration) st
 			st.partial = true
 		}
 		exp0 := m.expired
-		got := f.TestAndSet(vfBase.Add(time.Duration(now)*unit), []byte(op.V))
+		got := f.TestAndSet(base.Add(time.Duration(now)*unit), []byte(op.V))
 		want := m.testAndSet(now, op.V)
 		if m.expired > exp0 {
 			st.expiry = true
@@ -338,12 +346,16 @@ func vfReplayCase(t *testing.T) bool {
 		TTL  int64  `json:"ttl"`
 		Ops  []vfOp `json:"ops"`
 		Unit int64  `json:"unit_ns"`
+		Base int    `json:"base"`
 	}
 	if err := json.Unmarshal([]byte(rc), &c); err != nil {
 		t.Fatalf("bad replay case: %v", err)
 	}
 	var st vfHistStats
-	if msg := vfRunHistory(c.TTL, c.Ops, &st, time.Duration(c.Unit)); msg != "" {
+	if c.Base < 0 || c.Base >= len(vfBases) {
+		c.Base = 0
+	}
+	if msg := vfRunHistoryAt(vfBases[c.Base], c.TTL, c.Ops, &st, time.Duration(c.Unit)); msg != "" {
 		t.Fatalf("%s", msg)
 	}
 	return true
@@ -355,7 +367,7 @@ func TestVerifC11Enum(t *testing.T) {
 		return
 	}
 	c := ev.For("C11")
-	c.Rule("enum: every history of exactly L operations (value x time step in {-2..4} ticks) for TTL in {0,3} ticks, each run with a tick of 1 s and of 250 ms (thorough: also 1 ns and 1.5 s), checked after every operation (so all shorter histories are covered as prefixes); non-trivial = history with a TTL expiry and a re-insert of an expired value, or a backward clock jump over a non-empty filter; distinct by construction")
+	c.Rule("enum: every history of exactly L operations (value x time step in {-2..4} ticks) for TTL in {0,3} ticks, each run with a tick of 1 s and of 250 ms (thorough: also 1 ns and 1.5 s) from a fixed instant in 2023, and with a tick of 1 s from the zero time.Time and from the Unix epoch, checked after every operation (so all shorter histories are covered as prefixes); non-trivial = history with a TTL expiry and a re-insert of an expired value, or a backward clock jump over a non-empty filter; distinct by construction")
 	shard, nshards := ev.IntEnv("VERIF_SHARD", 0), ev.IntEnv("VERIF_NSHARDS", 1)
 	steps := []int64{-2, -1, 0, 1, 2, 3, 4}
 	units := []time.Duration{time.Second, 250 * time.Millisecond}
@@ -392,6 +404,15 @@ func TestVerifC11Enum(t *testing.T) {
 							js, _ := json.Marshal(map[string]any{"ttl": ttl, "ops": ops, "unit_ns": int64(unit)})
 							fmt.Printf("VERIF-REPLAY-CASE: %s\n", js)
 							t.Fatalf("%s\nhistory tick=%v ttl=%d ops=%v", msg, unit, ttl, ops)
+						}
+					}
+					// and with tick 0 at the zero time.Time (year 1) / at the Unix epoch
+					for bi, base := range vfBases[1:] {
+						var st2 vfHistStats
+						if msg := vfRunHistoryAt(base, ttl, ops, &st2, time.Second); msg != "" {
+							js, _ := json.Marshal(map[string]any{"ttl": ttl, "ops": ops, "unit_ns": int64(time.Second), "base": bi + 1})
+							fmt.Printf("VERIF-REPLAY-CASE: %s\n", js)
+							t.Fatalf("%s\nhistory base=%v tick=1s ttl=%d ops=%v", msg, base, ttl, ops)
 						}
 					}
 					total++
@@ -441,6 +462,7 @@ func TestVerifC11Machine(t *testing.T) {
 	rapid.Check(t, func(rt *rapid.T) {
 		ttl := rapid.SampledFrom([]int64{0, 1, 3, 10, 3600 * 3}).Draw(rt, "ttl")
 		unit := rapid.SampledFrom([]time.Duration{time.Second, time.Second, 250 * time.Millisecond, 100 * time.Millisecond, time.Millisecond, time.Nanosecond, 1500 * time.Millisecond}).Draw(rt, "tick")
+		base := vfBases[rapid.SampledFrom([]int{0, 0, 0, 1, 2}).Draw(rt, "base")]
 		f, err := New(time.Duration(ttl) * unit)
 		if err != nil {
 			rt.Fatalf("VIOL[c11-new]: %v", err)
@@ -464,7 +486,7 @@ func TestVerifC11Machine(t *testing.T) {
 				st.partial = true
 			}
 			exp0, ev0 := m.expired, m.evicted
-			got := f.TestAndSet(vfBase.Add(time.Duration(now)*unit), []byte(v))
+			got := f.TestAndSet(base.Add(time.Duration(now)*unit), []byte(v))
 			want := m.testAndSet(now, v)
 			if m.expired > exp0 {
 				st.expiry = true
